@@ -124,6 +124,17 @@ PROPS["C01"] = {
     "assumptions": ["payload bodies are random, not adversarially chosen per layer", "duplicates are not flagged (the statement forbids wrong content and attribution, not repetition)"],
 }
 
+PROPS["C09"] = {
+    "pkg": "stk", "env": {"SIM_PROP": "C09"}, "legs": STACKS,
+    "runs": {"quick": 2700, "thorough": 150000}, "budget": {"quick": 200, "thorough": 2400},
+    "rule": "one run = one stack of the catalogue on two nodes over a fault-free network with ample queues, per-run inner MTU (32..1280, small ones forcing up to 255 fragments), logical MTU, worker count and multiplexer channel id (empty/short/130-byte strings, 0, small and maximal integers); 3-8 Tell/Ask operations, one at a time, with lengths 0, 1, MTU-1, MTU, MTU+1, MTU+k and each layer's fragment-size boundaries; "
+            "non-trivial = at least one within-MTU operation arrived and at least one above-MTU operation was tried; distinct = distinct scheduler decision traces",
+    "components": TIER_A,
+    "level_text": "seeded exploration of (stack, MTU configuration, channel id, length) with all task interleavings; oracle: within MTU never the MTU error and (nil error) arrives complete, above MTU always the MTU error and nothing delivered",
+    "level_note": "trusted: instrumenter, scheduler, simulated network, ledger oracle; absence of delivery is attributable because the network is fault-free, queues are ample and operations are issued one at a time",
+    "assumptions": ["the 16-bit part-count boundary of the message-box swarm (over a million bytes over a tiny transport) is not reached"],
+}
+
 NOT_APPLICABLE = {
     "C17": "pure functions of their input (key/peer-id marshal, parse, equality, fingerprint): no schedule, clock, fault or second party for a simulator to vary; see DESIGN.md §7",
 }
